@@ -363,8 +363,10 @@ def main():
             picked = []
             for opname, rs in groups.items():
                 want = max(min(len(rs), 120), n * len(rs) // len(oreqs))
-                st = max(1, len(rs) // want)
-                picked += rs[::st][:want]
+                # chosen by a hash of the request text, not by position: adding a request family to the
+                # neighbour's generator then displaces only a few of the requests sampled before (a
+                # position-based sample changed wholesale, and with it what a cross stream happened to catch)
+                picked += sorted(rs, key=lambda r: hashlib.sha1((str(seed) + r).encode()).digest())[:want]
             oreqs = picked
             o_impl_req = getattr(om, "impl_request", lambda r: r)
             o_model_req = getattr(om, "model_request", lambda r: r)
